@@ -27,7 +27,14 @@ with the usual crossing test (`EOQ.crosses`, `EOQ.inside`):
   (what the driver runs on a sampled call) accepts only an empty result.  "Empty polygon" is `Polygon.Empty()`: no
   contour has a vertex (`EO.resultEmpty`); such a polygon contains no point.  (On every certified call of the runs so
   far the real code returned no contour at all — evidence key `certified_empty_results_that_had_contours` = 0.)
-  Calls whose region is empty for a reason the certificate does not recognise are judged on sample points only;
+  The certificate for Intersect also recognises operands separated by the line through one of their edges
+  (`EO.sepLine`, `noContact_disjoint_partial`: every pair of disjoint convex contours, overlapping boxes or not — the
+  case in which the clipper's SWEEP, not its bounding-box shortcut, has to produce the empty result).  Beyond the
+  proved certificate the validator applies the exact general judgement `EO.emptyJudged` (`noContact` for Intersect:
+  boundaries do not meet and no vertex of one is inside the other; `containedIn` for Sub) and demands an empty result
+  (`validateGeneral_judged`); the soundness of that judgement is a topological fact that is STATED, NOT PROVED
+  (`noContact_disjoint_Statement`, `containedIn_subset_Statement`) — if it were false the effect would be false
+  alarms, not misses;
 * `validatePoints_sound`, `clear_not_on_edge` — a `true` verdict on a sampled call is the law at every listed sample
   point that keeps the margin, and such points do not lie on any edge (sampling: nothing follows for other points);
 * `inside_int_iff_rat`, `inside_scale`, `inside_translate` — the executable division-free integer test is the ℚ-level rule, and scaling all
@@ -235,10 +242,10 @@ theorem validateGeneral_sound (m : Int) (A B R : EO.Polygon) (op : EO.Op) (pts :
     (EO.emptyCert op A B = true → EO.resultEmpty R = true ∧
       ∀ p : QPt, (inside (polyQ R) p ↔ holds op (inside (polyQ A) p) (inside (polyQ B) p))) := by
   unfold EO.validateGeneral at h
-  rw [Bool.and_eq_true] at h
-  refine ⟨fun p hp hc => validatePoints_sound m A B R op pts h.1 p hp hc, ?_⟩
+  simp only [Bool.and_eq_true] at h
+  obtain ⟨⟨hp, he⟩, _⟩ := h
+  refine ⟨fun p hpm hc => validatePoints_sound m A B R op pts hp p hpm hc, ?_⟩
   intro hcert
-  have he := h.2
   unfold EO.validateEmpty at he
   rw [hcert] at he
   simp only [Bool.not_true, Bool.false_or] at he
@@ -246,6 +253,36 @@ theorem validateGeneral_sound (m : Int) (A B R : EO.Polygon) (op : EO.Op) (pts :
   constructor
   · intro hR; exact absurd hR (resultEmpty_no_region R he p)
   · intro hop; exact absurd hop (emptyCert_sound op A B hcert p)
+
+/-- the validator also demands an empty result whenever the exact disjointness / containment judgement
+    `EO.emptyJudged` holds (Intersect of `noContact` operands, Sub of a `containedIn` receiver) -/
+theorem validateGeneral_judged (m : Int) (A B R : EO.Polygon) (op : EO.Op) (pts : List EO.Pt)
+    (h : EO.validateGeneral m A B R op pts = true) (hj : EO.emptyJudged op A B = true) :
+    EO.resultEmpty R = true := by
+  unfold EO.validateGeneral at h
+  simp only [Bool.and_eq_true] at h
+  have he := h.2
+  unfold EO.validateEmptyJudged at he
+  rw [hj] at he
+  simpa using he
+
+/-- operands separated by the line through one of their edges (every pair of disjoint convex contours, whatever their
+    bounding boxes) have disjoint regions: the part of `noContact_disjoint_Statement` that is proved -/
+theorem noContact_disjoint_partial (A B : EO.Polygon) (h : EO.sepLine A B = true) (p : QPt) :
+    ¬ (inside (polyQ A) p ∧ inside (polyQ B) p) :=
+  sepLine_sound A B h p
+
+/-- NOT PROVED (a topological fact about the even-odd rule): if no edge of `A` meets an edge of `B`, no vertex of `A`
+    is inside `B` and no vertex of `B` is inside `A`, the regions are disjoint.  The validator uses `EO.noContact` as an
+    exact judgement (an empty Intersect is demanded); its soundness rests on this statement.  If it were false the
+    effect would be a false alarm, never a missed violation. -/
+def noContact_disjoint_Statement : Prop :=
+  ∀ A B : EO.Polygon, EO.noContact A B = true → ∀ p : QPt, ¬ (inside (polyQ A) p ∧ inside (polyQ B) p)
+
+/-- NOT PROVED: if the boundaries do not meet, every vertex of `A` is inside `B` and no vertex of `B` is inside `A`,
+    then `A ⊆ B` (so `A.Sub(B)` is empty).  Proved instances: `A = B` and `B` a covering rectangle (`emptyCert_sound`). -/
+def containedIn_subset_Statement : Prop :=
+  ∀ A B : EO.Polygon, EO.containedIn A B = true → ∀ p : QPt, inside (polyQ A) p → inside (polyQ B) p
 
 /-! IEEE decoding on concrete patterns: 1.5 (float64), 0.1f (float32), -0.0, the smallest float32 denormal, +Inf -/
 example : EO.decodeBits 11 52 0x3FF8000000000000 = some ⟨3 * 2 ^ 51, -52⟩ := by decide
